@@ -251,7 +251,16 @@ def invalid_families():
         '<dtml-try>1<dtml-except>2<dtml-else>3<dtml-else>4</dtml-try>',
         '<dtml-try>1<dtml-finally>2<dtml-finally>3</dtml-try>',
         '<dtml-try>1<dtml-except>2<dtml-finally>3</dtml-try>',
-        '<dtml-try>1<dtml-finally>2<dtml-else>3</dtml-try>')
+        '<dtml-try>1<dtml-finally>2<dtml-else>3</dtml-try>',
+        # the same with the optional name repeated on the else tag
+        '<dtml-if a>1<dtml-else a>2<dtml-else>3</dtml-if>',
+        '<dtml-if a>1<dtml-else a>2<dtml-else a>3</dtml-if>',
+        '<dtml-if a>1<dtml-else>2<dtml-else a>3</dtml-if>',
+        '<dtml-if a>1<dtml-else a>2<dtml-elif b>3</dtml-if>',
+        '<dtml-if a>1<dtml-elif b>2<dtml-else>3<dtml-elif c>4</dtml-if>',
+        '<dtml-if a>1<dtml-else>2<dtml-elif b>3<dtml-else>4</dtml-if>',
+        '<dtml-in s>1<dtml-else s>2<dtml-else>3</dtml-in>',
+        '<dtml-in s>1<dtml-else>2<dtml-else s>3</dtml-in>')
     add('unknown-attribute', '<dtml-var x foo=1>', '<dtml-var x bogus>',
         '<dtml-if x size=3>a</dtml-if>', '<dtml-in s bogus>a</dtml-in>',
         '<dtml-with o upper>a</dtml-with>', '<dtml-call x html_quote>',
@@ -261,7 +270,11 @@ def invalid_families():
     add('duplicate-attribute', '<dtml-var x size=1 size=2>',
         '<dtml-var x fmt=a fmt=b>', '<dtml-in s sort=a sort=b>x</dtml-in>',
         '<dtml-var x null="" null="n">', '<dtml-in s prefix=a prefix=b>x'
-        '</dtml-in>')
+        '</dtml-in>',
+        # attribute names are case-insensitive
+        '<dtml-var x fmt=a FMT=b>', '<dtml-var x SIZE=1 size=2>',
+        '<dtml-in s Sort=a sORT=b>x</dtml-in>',
+        '<dtml-var x Null="" NULL="n">')
     add('missing-name', '<dtml-var>', '<dtml-if>a</dtml-if>',
         '<dtml-in>a</dtml-in>', '<dtml-with>a</dtml-with>', '<dtml-call>',
         '<dtml-unless>a</dtml-unless>', '<dtml-return>',
